@@ -774,6 +774,7 @@ void executeRun(const Desc& d, Obs& o) {
     o.ctxOkAtEnd = UtestShell::getCurrent() == RS.outsideShell;
     o.finalProbe = probePointers();
     UtestShell::setRethrowExceptions(false);
+    UtestShell::restoreDefaultTestTerminator();      // (-f is a process-wide switch the runner never takes back)
 
     // release what scripted tests still hold, then whatever the framework abandoned on longjmp paths
     for (int i = 0; i < N_SLOTS; i++) if (RS.slots[i].p) {
